@@ -156,13 +156,21 @@ func runC06(c c06case, rep *lib.Report) {
 		rep.DistrustF("C06 harness produced an unparsable request: %v", err)
 		return
 	}
-	if c.chunk < 0 {
+	if c.chunk == -1 {
 		// the framing of a streamed HTTP/2 upload: length unknown (-1), no transfer-encoding, body read until EOF
 		req.ContentLength, req.TransferEncoding = -1, nil
 		req.Header.Del("Content-Length")
 		req.Proto, req.ProtoMajor, req.ProtoMinor = "HTTP/2.0", 2, 0
 		req.Body = io.NopCloser(bytes.NewReader(body))
 		rep.Count("requests_of_unknown_length_without_chunking")
+	}
+	if c.chunk == -3 && c.size > 0 {
+		// an in-process request whose length is not known: ContentLength 0 with a Body that is NOT empty (what
+		// http.NewRequest builds over a pipe, a gzip reader or any wrapped reader; a literal &http.Request{Body: ...})
+		req.ContentLength, req.TransferEncoding = 0, nil
+		req.Header.Del("Content-Length")
+		req.Body = io.NopCloser(bytes.NewReader(body))
+		rep.Count("requests_with_length_zero_and_a_body")
 	}
 	// what the client sent, as net/http presents it before the buffer touches it
 	want := seenReq{method: req.Method, url: req.URL.String(), contentLength: int64(c.size)}
@@ -247,6 +255,8 @@ func runC06(c c06case, rep *lib.Report) {
 	framing := "content-length"
 	if c.chunk > 0 {
 		framing = "chunked"
+	} else if c.chunk == -3 {
+		framing = "length-zero-with-a-body"
 	} else if c.chunk < 0 {
 		framing = "unknown-length"
 	}
@@ -310,7 +320,7 @@ func c06cases(tier string) []c06case {
 	}
 	for _, mem := range mems {
 		for _, size := range []int{0, 1, mem - 1, mem, mem + 1, 3 * mem} {
-			for _, chunk := range []int{0, 1, 7, 1 << 20, -1} {
+			for _, chunk := range []int{0, 1, 7, 1 << 20, -1, -3} {
 				for _, method := range []string{"POST", "GET", "PUT"} {
 					for hs := range headerSets {
 						out = append(out, c06case{mem, size, chunk, method, hs, 1, nil})
@@ -366,8 +376,8 @@ func c06cases(tier string) []c06case {
 func RunC06(tier string, sh lib.Shard, rep *lib.Report) {
 	cases := c06cases(tier)
 	rep.Bounds["cases"] = len(cases)
-	rep.Rule = "full product memory threshold {8,64,default 1MiB} x body length {0,1,mem-1,mem,mem+1,3mem, ~1MiB(+)} x framing {Content-Length, chunked 1/7/whole, unknown length without chunking (HTTP/2 stream)} x method x header set x retry depth {1,2,3; 10..13 around the built-in cap of 11 attempts} x per-failed-attempt script (bytes consumed {0, half, all by Read, all by io.Copy/WriteTo} x 8 request mutations, the request body closed by every failed attempt); request parsed by http.ReadRequest from raw bytes, real buffer.ServeHTTP on long-lived Buffer instances (one per threshold x retry depth, serving all its cases in sequence); every invocation's method/URL/headers/ContentLength/TransferEncoding/body compared with the client's original; every fifth case again with Verbose(true) and a formatting logger; non-trivial = cases with at least one retry or a spilled body"
-	rep.Require("requests_spilled_to_disk", "cases_with_retries", "cases_retried_up_to_the_built_in_cap", "cases_rerun_verbose", "uploads_broken_midway")
+	rep.Rule = "full product memory threshold {8,64,default 1MiB} x body length {0,1,mem-1,mem,mem+1,3mem, ~1MiB(+)} x framing {Content-Length, chunked 1/7/whole, unknown length without chunking (HTTP/2 stream), ContentLength 0 over a non-empty body (in-process request of unknown length)} x method x header set x retry depth {1,2,3; 10..13 around the built-in cap of 11 attempts} x per-failed-attempt script (bytes consumed {0, half, all by Read, all by io.Copy/WriteTo} x 8 request mutations, the request body closed by every failed attempt); request parsed by http.ReadRequest from raw bytes, real buffer.ServeHTTP on long-lived Buffer instances (one per threshold x retry depth, serving all its cases in sequence); every invocation's method/URL/headers/ContentLength/TransferEncoding/body compared with the client's original; every fifth case again with Verbose(true) and a formatting logger; non-trivial = cases with at least one retry or a spilled body"
+	rep.Require("requests_spilled_to_disk", "requests_with_length_zero_and_a_body", "cases_with_retries", "cases_retried_up_to_the_built_in_cap", "cases_rerun_verbose", "uploads_broken_midway")
 	for i, c := range cases {
 		if !sh.Mine(i) {
 			continue
